@@ -156,12 +156,14 @@ func (p *Promise) resolution() resolution {
 // PipelineCaller to yield Answers and any pipelined clients to be
 // fulfilled.
 func (p *Promise) Fulfill(result Ptr) {
+	var proxies []*ClientPromise
+	defer shutdownClientPromises(&proxies) // after p.mu is released
 	defer p.mu.Unlock()
 	p.mu.Lock()
 	if !p.isUnresolved() {
 		panic("Promise.Fulfill called after Fulfill, Reject, or Join")
 	}
-	p.resolve(result, nil)
+	proxies = p.resolve(result, nil)
 }
 
 // Reject resolves the promise with a failure.
@@ -173,17 +175,23 @@ func (p *Promise) Reject(e error) {
 	if e == nil {
 		panic("Promise.Reject(nil)")
 	}
+	var proxies []*ClientPromise
+	defer shutdownClientPromises(&proxies) // after p.mu is released
 	defer p.mu.Unlock()
 	p.mu.Lock()
 	if !p.isUnresolved() {
 		panic("Promise.Reject called after Fulfill, Reject, or Join")
 	}
-	p.resolve(Ptr{}, e)
+	proxies = p.resolve(Ptr{}, e)
 }
 
 // resolve moves p into the resolved state from unresolved or pending
-// join.  The caller must be holding onto p.mu.
-func (p *Promise) resolve(r Ptr, e error) {
+// join.  The caller must be holding onto p.mu.  The pipelined clients
+// have been fulfilled when resolve returns, but calls made through them
+// before may still be waiting for p to be resolved and unlocked: the
+// caller must pass the returned promises to shutdownClientPromises after
+// it has released p.mu.
+func (p *Promise) resolve(r Ptr, e error) (proxies []*ClientPromise) {
 	p.caller = nil
 
 	if len(p.clients) > 0 || p.ongoingCalls > 0 {
@@ -201,7 +209,9 @@ func (p *Promise) resolve(r Ptr, e error) {
 			t := path.transform()
 			for i := range row {
 				verifhook.Yield(121)
-				row[i].promise.Fulfill(res.client(t))
+				if row[i].promise.fulfill(res.client(t)) {
+					proxies = append(proxies, row[i].promise)
+				}
 				row[i].promise = nil
 			}
 		}
@@ -225,6 +235,17 @@ func (p *Promise) resolve(r Ptr, e error) {
 		close(ch)
 	}
 	p.signals = nil
+	return proxies
+}
+
+// shutdownClientPromises waits for the calls that were in flight through
+// the pipelined clients fulfilled by resolve and shuts their hooks down.
+// It must be called without holding any Promise.mu: such a call may be
+// waiting for the promise to be resolved and for its mutex.
+func shutdownClientPromises(proxies *[]*ClientPromise) {
+	for _, cp := range *proxies {
+		cp.shutdown()
+	}
 }
 
 // Join ties the outcome of a promise to an answer's outcome.  The owner
@@ -235,6 +256,8 @@ func (p *Promise) resolve(r Ptr, e error) {
 // underlying promise to complete as well as any outstanding calls to
 // the underlying PipelineCaller to yield an Answer.
 func (p *Promise) Join(from *Answer) {
+	var proxies []*ClientPromise
+	defer shutdownClientPromises(&proxies) // after p.mu is released
 	defer p.mu.Unlock()
 	p.mu.Lock()
 	if !p.isUnresolved() {
@@ -276,7 +299,7 @@ traversal:
 		case parent.isResolved():
 			r, e := parent.result, parent.err
 			parent.mu.Unlock()
-			p.resolve(r, e)
+			proxies = p.resolve(r, e)
 			return
 		case parent.isJoined():
 			next := parent.next
